@@ -1153,6 +1153,8 @@ htp_status_t htp_connp_RES_FINALIZE(htp_connp_t *connp) {
     }
     size_t bytes_left;
     unsigned char * data;
+    // What was buffered from earlier chunks cannot be unread below.
+    size_t buffered_before = connp->out_buf_size;
 
     if (htp_connp_res_consolidate_data(connp, &data, &bytes_left) != HTP_OK) {
         return HTP_ERROR;
@@ -1181,6 +1183,11 @@ htp_status_t htp_connp_RES_FINALIZE(htp_connp_t *connp) {
     }
     if (connp->out_current_read_offset < connp->out_current_consume_offset) {
         connp->out_current_consume_offset=connp->out_current_read_offset;
+    }
+    // The bytes of the current chunk are going to be read again: keep only
+    // the part of the buffer that came from earlier chunks.
+    if (connp->out_buf != NULL) {
+        connp->out_buf_size = buffered_before;
     }
     return htp_tx_state_response_complete_ex(connp->out_tx, 0 /* not hybrid mode */);
 }
